@@ -333,7 +333,10 @@ class Harness:
 
     def canon(self):
         reports, links = lib_tables(self.h)
+        h = self.h
         return {"reports": sorted(reports.items()), "links": sorted((k, v[0], v[1]) for k, v in links.items()),
+                "report_objects": sorted((repr(k), hbfs.plain_attrs(v)) for k, v in h.registered_reports.items()),
+                "link_objects": sorted((repr(k), hbfs.plain_attrs(v)) for k, v in h.registered_collection_events.items()),
                 "sv": self.h.status_variables[SV].value, "comm": self.ep.comm()}
 
 
